@@ -229,7 +229,7 @@ func (rep *Report) Finish() int {
 		"property_id": rep.Prop,
 		"tier":        rep.Tier,
 		"seed":        seedFromEnv(),
-		"level":       levelOf(rep.Prop),
+		"level":       levelOf(rep.Verif, rep.Prop),
 		"coverage": map[string]interface{}{
 			"obligations":                             total,
 			"discharged":                              okCount,
@@ -297,7 +297,26 @@ func explanationOf(prop string) string {
 	return "Obligations generated from the current working tree by weakest-precondition calculation over go/ssa and discharged by SMT solvers; see DESIGN.md."
 }
 
-func levelOf(prop string) string {
+// levelOf: the category claimed for the property in MANIFEST.json (proof unless stated otherwise).
+func levelOf(verif, prop string) string {
+	data, err := os.ReadFile(filepath.Join(verif, "MANIFEST.json"))
+	if err == nil {
+		var m struct {
+			Checks []struct {
+				PropertyID   string `json:"property_id"`
+				LevelClaimed struct {
+					Category string `json:"category"`
+				} `json:"level_claimed"`
+			} `json:"checks"`
+		}
+		if json.Unmarshal(data, &m) == nil {
+			for _, c := range m.Checks {
+				if c.PropertyID == prop && c.LevelClaimed.Category != "" {
+					return c.LevelClaimed.Category
+				}
+			}
+		}
+	}
 	if prop == "C19" {
 		return "other"
 	}
